@@ -37,6 +37,23 @@ def programs(tier, b, seed):
                                 [("SB", "SB"), ("SB", "cb"), ("cb", "SB"), ("SB", "c"), ("c", "SB"), ("SB", "S"), ("S", "SB"), ("UB", "SB")], ["plain", "g1"])
     progs += gen.binop_programs("b%d/bool" % b, ["pow"], [(x, e) for x in bv for e in (0, 1, 2, 3)], [("SB", "c"), ("SB", "S")], ["plain"])
     progs += gen.unop_programs("b%d/bool" % b, ["invert", "neg", "pos", "abs"], bv, ["plain", "g1"], kinds=("SB",))
+    # arithmetic AFTER a guarded region was left through an exception that the caller caught: everything must still agree
+    # with Python (a guard, an ignore flag or a rescaled constant leaking out of the region changes later values silently)
+    k = 0
+    for (op, a_, c_) in [(o, x, y) for o in ("add", "mul", "lt", "truediv", "floordiv", "pow", "eq", "rshift", "sub") for (x, y) in ((3, 1), (-2, 2), (1, 3))]:
+        for how in ("zerodiv", "assert", "user", "lazy"):
+            B = gen.Builder("b%d/afterexc/%s/%s/%d,%d" % (b, how, op, a_, c_), "plain", None, {"op": op, "kinds": "afterexc-" + how})
+            rx, ry, rz, rg = B.opnd(("S", a_)), B.opnd(("S", c_)), B.opnd(("S", 0)), B.opnd(("SB", 0))
+            bad = {"zerodiv": {"op": "bin", "name": "floordiv", "a": rx, "b": rz}, "assert": {"op": "meth", "name": "assert_lt", "a": rx, "args": [{"s": "x"}]},
+                   "user": {"op": "raise"}, "lazy": {"op": "bin", "name": "floordiv", "a": rx, "b": rz}}[how]
+            if how == "lazy":
+                B.add({"op": "try", "body": [{"op": "ite", "cond": rg, "t": {"body": [bad], "ret": rx}, "f": ry}]})
+            else:
+                B.add({"op": "try", "body": [{"op": "guarded", "cond": rg, "body": [bad]}]})
+            B.add({"op": "bin", "name": op, "a": rx, "b": ry, "tag": "main"})
+            B.add({"op": "bin", "name": op, "a": rx, "b": {"c": c_}, "tag": "main"})
+            B.add({"op": "meth", "name": "check_zero", "a": rz})
+            progs.append(B.build())
     rg = gen.RandGen(seed * 7919 + b, b)
     n = 400 if tier == "quick" else 6000
     for i in range(n):
